@@ -14,9 +14,9 @@ runs the library to quiescence; `mech` is that function.  The routing decisions 
 they are taken from `Extracted/Dispatch.lean`, regenerated from core.hpp on every check run.
 
 `spec` is the obvious sequential reading (a fold over the steps).  `Props/C02.lean` proves that `mech`, under every
-order of external events, ends with `spec`'s result and invocation list — except on programs containing defect D10
-(an inner Task whose head is a Run-type core or a PromiseCore, returned from a continuation), where `mech` crashes
-like the implementation does.
+order of external events, ends with `spec`'s result and invocation list.  (Until fix 4f7ebfc of /repo — defect D10: an inner
+Task whose head is a Run-type core or a PromiseCore, returned from a continuation — `mech` crashed on such programs like the
+implementation did; the crash outcome is still part of the model, reachable only if the extracted tables say so.)
 -/
 import YaclibModel.Extracted.Dispatch
 
@@ -323,16 +323,25 @@ def startLazy (cfg : Cfg) (src : Src) (ovr : Option Exec) (ctx : Option Nat) (g 
   | s => startSrc cfg s ctx g
 
 /-- CallResolveAsync, Task branch: `Step(*this, *MoveToCaller(core))` ⇒ `head->Here(*this)`.
-    ReadyCore::Here publishes its value; a Run-type Core takes Here for the completion of its own async result and
-    dereferences `_self.caller == nullptr`; a PromiseCore (UniqueCore::Here) reads a Result out of the outer core's
-    Callback bytes and releases the outer core (defect D10). -/
-def enterHere (src : Src) (ctx : Option Nat) (g : G) : Started :=
+    ReadyCore::Here publishes its value (no Submit).  A Run-type Core (Schedule) entered without a caller and a PromiseCore
+    (LazyContract) start themselves: `_executor->Submit(*this)` — since fix 4f7ebfc; before it (defect D10) the Run-type
+    Core took Here for the completion of its own async result and dereferenced `_self.caller == nullptr`, and the
+    PromiseCore ran UniqueCore::Here on the outer core's Callback bytes.  Which of the two the source does is extracted
+    (`Dispatch.implRunEntry`, `Dispatch.promiseCoreHere`, `Dispatch.asyncEntry`). -/
+def enterHere (cfg : Cfg) (src : Src) (ctx : Option Nat) (g : G) : Started :=
   match Dispatch.asyncEntry true with
   | .stepHereOnHead =>
     (match src with
-     | .ready r => .go r .inl ctx g
-     | _ => .crash g)
-  | .setInline => .crash g
+     | .unit =>
+       (match Dispatch.implRunEntry with
+        | .asyncDoneIfCallerElseSubmit => startSrc cfg .unit ctx g   -- the head step follows and is submitted like any head
+        | .asyncDoneOnly => .crash g)
+     | .promiseFn e p f =>
+       (match Dispatch.promiseCoreHere with
+        | .submit => startSrc cfg (.promiseFn e p f) ctx g
+        | .inherited => .crash g)
+     | s => startSrc cfg s ctx g)                                     -- ReadyCore::Here = SetResult; other states: SetInline
+  | .setInline => startSrc cfg src ctx g
 
 def overrideHead (steps : List Step) (ovr : Option Exec) : List Step :=
   match ovr, steps with
@@ -366,7 +375,7 @@ mutual
          | .async src lazy steps =>
            -- the functor body builds the inner pipeline: one core per source / step
            let g2 := ((g1.allocCore (srcCores src + steps.length)).allocFunctor (srcFunctors src + steps.length))
-           let st := if lazy then enterHere src ctx (asyncRetAcct ty g2) else startSrc cfg src ctx g2
+           let st := if lazy then enterHere cfg src ctx (asyncRetAcct ty g2) else startSrc cfg src ctx g2
            (match st with
             | .go r0 inh0 c0 g3 =>
               asyncFinish ty own k lazy ctx
@@ -663,20 +672,6 @@ def client : List Event → Option (Prog × Handle)
   | _ :: evs => client evs
 
 def progOf (evs : List Event) : Option Prog := (client evs).map (·.1)
-
-/-! ## Defect D10: the program shapes on which the implementation (and `mech`) crashes -/
-
-mutual
-  def d10FreeStep : Step → Bool
-    | .mk _ _ _ beh =>
-      (match beh with
-       | .async src lazy steps =>
-         (!(lazy && !src.isReady)) && d10FreeSteps steps
-       | _ => true)
-  def d10FreeSteps : List Step → Bool
-    | [] => true
-    | s :: ss => d10FreeStep s && d10FreeSteps ss
-end
 
 /-! ## Well-formed programs (what the C++ type system admits; the harness rejects the others) -/
 
